@@ -1,6 +1,7 @@
 package props
 
 import (
+	"golang.org/x/tools/go/ssa"
 	"nsa/core"
 	"nsa/model"
 	"nsa/rules"
@@ -43,3 +44,7 @@ func selPkgs(strictRels map[string]bool, nilableRels map[string]bool, rels ...st
 }
 
 var _ = core.ModPath
+
+func sameFn(f *ssa.Function) func(*ssa.Function) bool {
+	return func(g *ssa.Function) bool { return f != nil && g == f }
+}
